@@ -3,6 +3,7 @@ package c14
 
 import (
 	"fmt"
+	"math"
 	"os"
 	"strings"
 	"testing"
@@ -175,7 +176,10 @@ func positions(e *pb.Query_Expression, parent *pb.Query_Expression, depth int, o
 	}
 }
 
-var omissionKinds = []string{"unset-oneof", "drop-query-expr", "drop-not-operand", "empty-operand-list", "empty-eq", "unresolved-placeholder", "unknown-column", "empty-expression-operand-appended"}
+var omissionKinds = []string{"unset-oneof", "drop-query-expr", "drop-not-operand", "empty-operand-list", "empty-eq", "unresolved-placeholder", "unknown-column", "empty-expression-operand-appended", "mixed-placeholders"}
+
+// placeholder numbers no parser produces but the wire format carries
+var hostilePH = []int32{1, 2, 3, 4, 5, 6, 7, -1, 1, -7, math.MinInt32, 2, math.MaxInt32, 65535, -65536, 65536, 65537, 3, 1 << 20, -(1 << 20)}
 
 // omit applies one structural omission at position k of a valid query.
 func omit(q *pb.Query, kind string, k int) (string, bool) {
@@ -205,7 +209,14 @@ func omit(q *pb.Query, kind string, k int) (string, bool) {
 	case "empty-eq":
 		p.e.Value = &pb.Query_Expression_Eq{Eq: &pb.Query_Expression_Equal{}}
 	case "unresolved-placeholder":
-		p.e.Value = &pb.Query_Expression_Eq{Eq: &pb.Query_Expression_Equal{Column: "a", Placeholder: int32(k%7 + 1)}}
+		p.e.Value = &pb.Query_Expression_Eq{Eq: &pb.Query_Expression_Equal{Column: "a", Placeholder: hostilePH[k%len(hostilePH)]}}
+	case "mixed-placeholders":
+		// several unresolved placeholders of different sign and size in one query
+		var ops []*pb.Query_Expression
+		for i := 0; i < 2+k%3; i++ {
+			ops = append(ops, &pb.Query_Expression{Value: &pb.Query_Expression_Eq{Eq: &pb.Query_Expression_Equal{Column: "a", Placeholder: hostilePH[(k+i*5)%len(hostilePH)]}}})
+		}
+		p.e.Value = &pb.Query_Expression_And_{And: &pb.Query_Expression_And{Exprs: ops}}
 	case "unknown-column":
 		// names of many shapes: the error text that names the column is built
 		// from it (long, multi-byte, just around typical truncation lengths)
@@ -358,7 +369,7 @@ func drawCase(t *rapid.T, nreq int) *Case {
 	c := &Case{}
 	c.Data = *gen.Explicit(t, gen.DataOpts{MaxRows: 12, IdentCols: true})
 	gen.UTF8Spec(&c.Data)
-	c.ServerArgs = rapid.SampledFrom([][]string{{}, {"-c=false"}, {"-p"}}).Draw(t, "sargs")
+	c.ServerArgs = rapid.SampledFrom([][]string{{}, {"-c=false"}, {"-p"}, {"env:GOMAXPROCS=1"}, {"-p", "env:GOMAXPROCS=3"}}).Draw(t, "sargs")
 	pool := gen.NewLeafPool(model.NewData(c.Data.Rows()))
 	n := rapid.IntRange(1, nreq).Draw(t, "nreq")
 	for i := 0; i < n; i++ {
@@ -394,6 +405,25 @@ func drawCase(t *rapid.T, nreq int) *Case {
 		// error flood: many cheap failing requests in a row (a handler that
 		// leaks something per failed request wears out)
 		bad := marshal(&pb.QueryRequest{Queries: []*pb.Query{{Expr: fix.ToPB(model.Eq("no_such_column", "x"))}, {}}})
+		if rapid.Bool().Draw(t, "floodmany") {
+			// several members that fail at once, each in its own way (a server that
+			// runs the members of a request side by side has them fail together)
+			nbad := rapid.SampledFrom([]int{2, 3, 8, 12, 16}).Draw(t, "floodmembers")
+			var qs []*pb.Query
+			for i := 0; i < nbad; i++ {
+				switch i % 4 {
+				case 0:
+					qs = append(qs, &pb.Query{})
+				case 1:
+					qs = append(qs, &pb.Query{Expr: fix.ToPB(model.Eq(fmt.Sprintf("no_such_column_%d", i), "x"))})
+				case 2:
+					qs = append(qs, &pb.Query{Expr: &pb.Query_Expression{Value: &pb.Query_Expression_Not_{Not: &pb.Query_Expression_Not{}}}})
+				default:
+					qs = append(qs, &pb.Query{Expr: &pb.Query_Expression{}, GroupBy: []string{"nope"}})
+				}
+			}
+			bad = marshal(&pb.QueryRequest{Queries: qs})
+		}
 		k := rapid.SampledFrom([]int{140, 260}).Draw(t, "floodn")
 		for i := 0; i < k; i++ {
 			c.Reqs = append(c.Reqs, Req{Wire: bad, Kind: "error-flood"})
